@@ -1,11 +1,1139 @@
-// Package c19 - correspondence harness for C19 (stub: not built yet).
+// Package c19 drives the real registry.Repository (PushSignature / ListSignatures /
+// FetchSignatureBlob) over real OCI image layouts on disk: sequences of signature pushes for
+// several subject artifacts, interleaved with foreign referrers and hand-built hostile
+// manifests written directly with oras, listing every subject and fetching every listed
+// signature after every step.
 package c19
 
 import (
-	"errors"
+	"context"
+	"crypto/sha256"
+	"encoding/json"
+	"fmt"
+	"io"
+	"math/rand"
+	"os"
+	"path/filepath"
+	"sort"
+	"strings"
+	"time"
 
+	"github.com/notaryproject/notation-go/registry"
 	"github.com/notaryproject/notation-go/xverif/common"
+	"github.com/opencontainers/go-digest"
+	ocispec "github.com/opencontainers/image-spec/specs-go/v1"
+	"oras.land/oras-go/v2"
+	"oras.land/oras-go/v2/content/oci"
 )
 
+const (
+	mtImage    = ocispec.MediaTypeImageManifest
+	mtArtifact = "application/vnd.oci.artifact.manifest.v1+json"
+	mtIndex    = ocispec.MediaTypeImageIndex
+	mtJose     = "application/jose+json"
+	mtCose     = "application/cose"
+	notationT  = registry.ArtifactTypeNotation
+	otherT     = "application/vnd.example.sbom.v1"
+	capM       = 4 * 1024 * 1024  // mirrored from the model's facts; a wrong value shows as disagreement
+	capB       = 32 * 1024 * 1024 //
+	timeMark   = "<time>"
+	unknownID  = 1 << 30
+)
+
+// ---- JSON shapes of the Lean structures ---------------------------------------------------
+
+type Desc struct {
+	Mt   string `json:"mt"`
+	Dig  int    `json:"dig"`
+	Size int64  `json:"size"`
+}
+
+type Layer struct {
+	Mt   string `json:"mt"`
+	Blob int    `json:"blob"`
+	Size int64  `json:"size"`
+}
+
+type KV struct {
+	K string `json:"k"`
+	V string `json:"v"`
+}
+
+type Op struct {
+	Kind    string  `json:"kind"`
+	Id      int     `json:"id"`
+	Subject *Desc   `json:"subject"`
+	Mt      string  `json:"mt"`
+	Blob    int     `json:"blob"`
+	Bsize   int64   `json:"bsize"`
+	Msize   int64   `json:"msize"`
+	Atype   string  `json:"atype"`
+	TopType string  `json:"topType"`
+	Layers  []Layer `json:"layers"`
+	Annos   []KV    `json:"annos"`
+
+	padTo   int64  // raw: pad the manifest to exactly this many bytes (0: natural size)
+	flavour string // for the distribution histogram
+}
+
+type Input struct {
+	Mode    string `json:"mode"`
+	Ops     []Op   `json:"ops"`
+	Queries []Desc `json:"queries"`
+	Probes  []Desc `json:"probes"`
+	// whether oras could re-open the layout from disk at the end (measured, see README: oras'
+	// loader fails on a manifest whose subject descriptor states a wrong size for existing content)
+	ReopenOk bool `json:"reopenOk"`
+}
+
+type FetchObs struct {
+	Ok           bool   `json:"ok"`
+	Blob         int    `json:"blob"`
+	Mt           string `json:"mt"`
+	ManifestRead bool   `json:"manifestRead"`
+	BlobRead     bool   `json:"blobRead"`
+}
+
+type SigObs struct {
+	Id    int      `json:"id"`
+	Annos []KV     `json:"annos"`
+	Fetch FetchObs `json:"fetch"`
+}
+
+type ListObs struct {
+	Ok      bool     `json:"ok"`
+	Sigs    []SigObs `json:"sigs"`
+	BigRead bool     `json:"bigRead"`
+}
+
+type StepObs struct {
+	Ok    bool      `json:"ok"`
+	Lists []ListObs `json:"lists"`
+}
+
+type Obs struct {
+	Steps      []StepObs  `json:"steps"`
+	Probes     []FetchObs `json:"probes"`
+	Reopened   []ListObs  `json:"reopened"`
+	ReopenSame bool       `json:"reopenSame"`
+}
+
+// ---- the instrumented target ---------------------------------------------------------------
+
+// logTarget is a plain oras.GraphTarget (neither registry.Repository nor ReferrerLister, exactly
+// like *oci.Store) that records Fetch calls and optionally answers Predecessors by digest only.
+type logTarget struct {
+	oras.GraphTarget
+	fetched    []digest.Digest
+	digestOnly bool
+	known      []ocispec.Descriptor // every subject descriptor of the sequence
+}
+
+func (t *logTarget) Fetch(ctx context.Context, d ocispec.Descriptor) (io.ReadCloser, error) {
+	t.fetched = append(t.fetched, d.Digest)
+	return t.GraphTarget.Fetch(ctx, d)
+}
+
+func (t *logTarget) Predecessors(ctx context.Context, d ocispec.Descriptor) ([]ocispec.Descriptor, error) {
+	if !t.digestOnly {
+		return t.GraphTarget.Predecessors(ctx, d)
+	}
+	// a digest-keyed referrers index: referrers of any descriptor with this digest
+	seen := map[digest.Digest]bool{}
+	var out []ocispec.Descriptor
+	asked := false
+	for _, k := range t.known {
+		if k.Digest != d.Digest {
+			continue
+		}
+		if k.MediaType == d.MediaType && k.Size == d.Size {
+			asked = true
+		}
+		ps, err := t.GraphTarget.Predecessors(ctx, k)
+		if err != nil {
+			return nil, err
+		}
+		for _, p := range ps {
+			if !seen[p.Digest] {
+				seen[p.Digest] = true
+				out = append(out, p)
+			}
+		}
+	}
+	if !asked {
+		ps, err := t.GraphTarget.Predecessors(ctx, d)
+		if err != nil {
+			return nil, err
+		}
+		for _, p := range ps {
+			if !seen[p.Digest] {
+				seen[p.Digest] = true
+				out = append(out, p)
+			}
+		}
+	}
+	return out, nil
+}
+
+// ---- concrete world --------------------------------------------------------------------------
+
+var subjectBytes [3][]byte // the subject artifacts: real image manifests, same in every layout
+
+func init() {
+	for k := range subjectBytes {
+		m := map[string]any{
+			"schemaVersion": 2,
+			"mediaType":     mtImage,
+			"config":        map[string]any{"mediaType": "application/vnd.oci.image.config.v1+json", "digest": digest.FromString(fmt.Sprint("config", k)).String(), "size": 7 + k},
+			"layers": []any{map[string]any{"mediaType": "application/vnd.oci.image.layer.v1.tar", "digest": digest.FromString(fmt.Sprint("layer", k)).String(), "size": 100 + k}},
+			"annotations": map[string]string{"name": strings.Repeat("s", k+1)},
+		}
+		b, _ := json.Marshal(m)
+		subjectBytes[k] = b
+	}
+}
+
+func subjectDesc(k int) Desc { return Desc{Mt: mtImage, Dig: k, Size: int64(len(subjectBytes[k]))} }
+
+type world struct {
+	dir        string
+	store      *oci.Store
+	tgt        *logTarget
+	repo       registry.Repository
+	blobSize   map[int]int64 // real byte size of the bytes labelled id
+	blobDigest map[int]digest.Digest
+	blobByDig  map[digest.Digest]int
+	manByDig   map[digest.Digest]int
+	manDigest  map[int]digest.Digest
+	manSize    map[digest.Digest]int64
+	pushedOps  map[int]*Op
+}
+
+// blobContent is the envelope labelled id: distinct for distinct labels, any size >= 24.
+func blobContent(id int, size int64) []byte {
+	b := make([]byte, size)
+	head := fmt.Sprintf("sig-envelope-%010d|", id)
+	n := copy(b, head)
+	if n < len(b) {
+		seed := []byte(fmt.Sprintf("%x", sha256.Sum256([]byte(head))))
+		copy(b[n:], seed)
+		for filled := n + len(seed); filled < len(b); filled *= 2 {
+			copy(b[filled:], b[n:filled])
+		}
+	}
+	return b
+}
+
+func (w *world) blob(id int) (digest.Digest, []byte) {
+	size, ok := w.blobSize[id]
+	if !ok {
+		panic(fmt.Sprintf("blob %d has no size", id))
+	}
+	b := blobContent(id, size)
+	if d, ok := w.blobDigest[id]; ok {
+		return d, b
+	}
+	d := digest.FromBytes(b)
+	w.blobDigest[id] = d
+	w.blobByDig[d] = id
+	return d, b
+}
+
+func (w *world) blobDig(id int) digest.Digest {
+	if d, ok := w.blobDigest[id]; ok {
+		return d
+	}
+	d, _ := w.blob(id)
+	return d
+}
+
+func digOf(d int) digest.Digest {
+	if d >= 0 && d < len(subjectBytes) {
+		return digest.FromBytes(subjectBytes[d])
+	}
+	return digest.FromString(fmt.Sprint("foreign-subject-", d))
+}
+
+func concDesc(d Desc) ocispec.Descriptor {
+	return ocispec.Descriptor{MediaType: d.Mt, Digest: digOf(d.Dig), Size: d.Size}
+}
+
+func newWorld(dir string, in *Input, nSubj int) (*world, error) {
+	if err := os.MkdirAll(dir, 0o755); err != nil {
+		return nil, err
+	}
+	store, err := oci.New(dir)
+	if err != nil {
+		return nil, err
+	}
+	w := &world{dir: dir, store: store, blobSize: map[int]int64{}, blobDigest: map[int]digest.Digest{}, blobByDig: map[digest.Digest]int{},
+		manByDig: map[digest.Digest]int{}, manDigest: map[int]digest.Digest{}, manSize: map[digest.Digest]int64{}, pushedOps: map[int]*Op{}}
+	ctx := context.Background()
+	// the subject artifacts are real manifests of the layout
+	for k := 0; k < nSubj; k++ {
+		d := ocispec.Descriptor{MediaType: mtImage, Digest: digest.FromBytes(subjectBytes[k]), Size: int64(len(subjectBytes[k]))}
+		if err := store.Push(ctx, d, strings.NewReader(string(subjectBytes[k]))); err != nil {
+			return nil, err
+		}
+		if err := store.Tag(ctx, d, fmt.Sprintf("v%d", k)); err != nil {
+			return nil, err
+		}
+	}
+	w.tgt = &logTarget{GraphTarget: store, digestOnly: in.Mode == "digestOnly"}
+	seen := map[Desc]bool{}
+	add := func(k Desc) {
+		c := concDesc(k)
+		if !seen[k] {
+			seen[k] = true
+			w.tgt.known = append(w.tgt.known, c)
+		}
+	}
+	for _, o := range in.Ops {
+		if o.Subject != nil {
+			add(*o.Subject)
+		}
+	}
+	for _, q := range in.Queries {
+		add(q)
+	}
+	w.repo = registry.NewRepository(w.tgt)
+	return w, nil
+}
+
+// rawManifest renders the manifest of a raw operation; deterministic in the operation.
+func (w *world) rawManifest(o *Op) ([]byte, error) {
+	descJSON := func(mt string, dg digest.Digest, size int64) map[string]any {
+		return map[string]any{"mediaType": mt, "digest": dg.String(), "size": size}
+	}
+	var layers []any
+	for _, l := range o.Layers {
+		layers = append(layers, descJSON(l.Mt, w.blobDig(l.Blob), l.Size))
+	}
+	m := map[string]any{"x-nonce": o.Id}
+	switch o.Mt {
+	case mtImage:
+		m["schemaVersion"] = 2
+		m["mediaType"] = mtImage
+		m["config"] = descJSON(o.Atype, ocispec.DescriptorEmptyJSON.Digest, ocispec.DescriptorEmptyJSON.Size)
+		if layers == nil {
+			layers = []any{}
+		}
+		m["layers"] = layers
+		if o.TopType != "" {
+			m["artifactType"] = o.TopType
+		}
+	case mtArtifact:
+		m["mediaType"] = mtArtifact
+		m["artifactType"] = o.Atype
+		if layers != nil {
+			m["blobs"] = layers
+		}
+	default: // an image index (or anything else): no layers, no artifact type the code looks at
+		m["schemaVersion"] = 2
+		m["mediaType"] = o.Mt
+		m["manifests"] = []any{}
+		m["artifactType"] = o.Atype
+	}
+	if o.Subject != nil {
+		c := concDesc(*o.Subject)
+		m["subject"] = descJSON(c.MediaType, c.Digest, c.Size)
+	}
+	if len(o.Annos) > 0 {
+		a := map[string]string{}
+		for _, kv := range o.Annos {
+			a[kv.K] = kv.V
+		}
+		m["annotations"] = a
+	}
+	b, err := json.Marshal(m)
+	if err != nil {
+		return nil, err
+	}
+	if o.padTo > 0 {
+		const overhead = int64(len(`,"x-pad":""`))
+		n := o.padTo - int64(len(b)) - overhead
+		if n < 0 {
+			return nil, fmt.Errorf("cannot pad manifest of %d bytes to %d", len(b), o.padTo)
+		}
+		m["x-pad"] = strings.Repeat("p", int(n))
+		if b, err = json.Marshal(m); err != nil {
+			return nil, err
+		}
+		if int64(len(b)) != o.padTo {
+			return nil, fmt.Errorf("padding gave %d bytes, wanted %d", len(b), o.padTo)
+		}
+	}
+	return b, nil
+}
+
+func (w *world) exec(o *Op) (bool, error) {
+	ctx := context.Background()
+	switch o.Kind {
+	case "push":
+		_, body := w.blob(o.Blob)
+		var annos map[string]string
+		if len(o.Annos) > 0 {
+			annos = map[string]string{}
+			for _, kv := range o.Annos {
+				annos[kv.K] = kv.V
+			}
+		}
+		if o.Subject == nil {
+			return false, fmt.Errorf("push without subject")
+		}
+		before := cloneMap(annos)
+		blobDesc, manDesc, err := w.repo.PushSignature(ctx, o.Mt, body, concDesc(*o.Subject), annos)
+		if !sameMap(before, annos) {
+			return false, fmt.Errorf("PushSignature modified the caller's annotation map")
+		}
+		if err != nil {
+			o.Msize = 0
+			return false, nil
+		}
+		if blobDesc.Digest != w.blobDig(o.Blob) || blobDesc.MediaType != o.Mt || blobDesc.Size != o.Bsize {
+			return false, fmt.Errorf("PushSignature returned blob descriptor %+v for blob %d", blobDesc, o.Blob)
+		}
+		if _, dup := w.manByDig[manDesc.Digest]; dup {
+			return false, fmt.Errorf("two operations produced the same manifest digest %s", manDesc.Digest)
+		}
+		o.Msize = manDesc.Size
+		w.manByDig[manDesc.Digest] = o.Id
+		w.manDigest[o.Id] = manDesc.Digest
+		w.manSize[manDesc.Digest] = manDesc.Size
+		w.pushedOps[o.Id] = o
+		return true, nil
+	case "raw":
+		b, err := w.rawManifest(o)
+		if err != nil {
+			return false, err
+		}
+		d := ocispec.Descriptor{MediaType: o.Mt, Digest: digest.FromBytes(b), Size: int64(len(b))}
+		if _, dup := w.manByDig[d.Digest]; dup {
+			return false, fmt.Errorf("two operations produced the same manifest digest %s", d.Digest)
+		}
+		o.Msize = d.Size
+		if err := w.store.Push(ctx, d, strings.NewReader(string(b))); err != nil {
+			return false, fmt.Errorf("writing a raw manifest: %w", err)
+		}
+		w.manByDig[d.Digest] = o.Id
+		w.manDigest[o.Id] = d.Digest
+		w.manSize[d.Digest] = d.Size
+		return true, nil
+	case "blob":
+		dg, body := w.blob(o.Blob)
+		d := ocispec.Descriptor{MediaType: "application/octet-stream", Digest: dg, Size: int64(len(body))}
+		if err := w.store.Push(ctx, d, strings.NewReader(string(body))); err != nil {
+			return false, nil
+		}
+		return true, nil
+	}
+	return false, fmt.Errorf("unknown op kind %q", o.Kind)
+}
+
+func cloneMap(m map[string]string) map[string]string {
+	if m == nil {
+		return nil
+	}
+	c := map[string]string{}
+	for k, v := range m {
+		c[k] = v
+	}
+	return c
+}
+
+func sameMap(a, b map[string]string) bool {
+	if len(a) != len(b) {
+		return false
+	}
+	for k, v := range a {
+		if w, ok := b[k]; !ok || w != v {
+			return false
+		}
+	}
+	return true
+}
+
+// fetchObs runs FetchSignatureBlob and canonicalises the result.
+func (w *world) fetchObs(repo registry.Repository, tgt *logTarget, d ocispec.Descriptor) FetchObs {
+	if tgt != nil {
+		tgt.fetched = nil
+	}
+	body, bd, err := repo.FetchSignatureBlob(context.Background(), d)
+	var fo FetchObs
+	if tgt != nil {
+		for _, f := range tgt.fetched {
+			if f == d.Digest {
+				fo.ManifestRead = true
+			} else {
+				fo.BlobRead = true
+			}
+		}
+	}
+	if err != nil {
+		return fo
+	}
+	fo.Ok = true
+	fo.Mt = bd.MediaType
+	id, known := w.blobByDig[digest.FromBytes(body)]
+	if !known || bd.Digest != digest.FromBytes(body) || bd.Size != int64(len(body)) {
+		id = unknownID
+	}
+	fo.Blob = id
+	return fo
+}
+
+func (w *world) listObs(repo registry.Repository, tgt *logTarget, q Desc) ListObs {
+	if tgt != nil {
+		tgt.fetched = nil
+	}
+	var descs []ocispec.Descriptor
+	err := repo.ListSignatures(context.Background(), concDesc(q), func(ms []ocispec.Descriptor) error {
+		descs = append(descs, ms...)
+		return nil
+	})
+	lo := ListObs{Ok: err == nil, Sigs: []SigObs{}}
+	if tgt != nil {
+		for _, f := range tgt.fetched {
+			if w.manSize[f] > capM {
+				lo.BigRead = true
+			}
+		}
+	}
+	if err != nil {
+		if len(descs) > 0 {
+			lo.Sigs = append(lo.Sigs, SigObs{Id: unknownID, Annos: []KV{}})
+		}
+		return lo
+	}
+	for _, d := range descs {
+		id, known := w.manByDig[d.Digest]
+		if !known {
+			id = unknownID
+		}
+		so := SigObs{Id: id, Annos: []KV{}}
+		if d.ArtifactType != notationT {
+			so.Id = unknownID + 1
+		}
+		for k, v := range d.Annotations {
+			if o, pushed := w.pushedOps[id]; pushed && k == ocispec.AnnotationCreated {
+				supplied := false
+				for _, kv := range o.Annos {
+					if kv.K == k {
+						supplied = true
+					}
+				}
+				if !supplied {
+					if _, err := time.Parse(time.RFC3339, v); err == nil {
+						v = timeMark
+					}
+				}
+			}
+			so.Annos = append(so.Annos, KV{k, v})
+		}
+		sort.Slice(so.Annos, func(i, j int) bool { return so.Annos[i].K < so.Annos[j].K })
+		so.Fetch = w.fetchObs(repo, tgt, d)
+		lo.Sigs = append(lo.Sigs, so)
+	}
+	sort.SliceStable(lo.Sigs, func(i, j int) bool { return lo.Sigs[i].Id < lo.Sigs[j].Id })
+	return lo
+}
+
+// ---- generator -------------------------------------------------------------------------------
+
+var annoKeys = []string{"io.cncf.notary.x509chain.thumbprint#S256", "a.first", "org.example.build", "org.opencontainers.image.title", "zz.last", "org.opencontainers.image.created"}
+
+type gen struct {
+	r        *rand.Rand
+	thorough bool
+	nSubj    int
+	nextBlob int
+	sizes    map[int]int64
+	ops      []Op
+	big      int // operations involving very large contents so far
+}
+
+func (g *gen) freshBlob(size int64) int {
+	g.nextBlob++
+	g.sizes[g.nextBlob] = size
+	return g.nextBlob
+}
+
+func (g *gen) envSize() int64 {
+	switch g.r.Intn(6) {
+	case 0:
+		return 24
+	case 1:
+		return int64(25 + g.r.Intn(40))
+	case 2:
+		return int64(300 + g.r.Intn(300))
+	case 3:
+		return 2048
+	case 4:
+		return int64(5000 + g.r.Intn(4000))
+	default:
+		return int64(60000 + g.r.Intn(20000))
+	}
+}
+
+func (g *gen) envMt() string {
+	if g.r.Intn(2) == 0 {
+		return mtJose
+	}
+	return mtCose
+}
+
+func (g *gen) annos(allowCreated bool) []KV {
+	out := []KV{}
+	n := g.r.Intn(4)
+	if g.r.Intn(3) == 0 {
+		n = 0
+	}
+	for _, i := range g.r.Perm(len(annoKeys)) {
+		if len(out) >= n {
+			break
+		}
+		k := annoKeys[i]
+		if k == ocispec.AnnotationCreated && !allowCreated {
+			continue
+		}
+		v := fmt.Sprintf("v%d", g.r.Intn(50))
+		if k == ocispec.AnnotationCreated {
+			v = []string{"2023-04-05T06:07:08Z", "2001-01-01T00:00:00+02:00"}[g.r.Intn(2)]
+		}
+		out = append(out, KV{k, v})
+	}
+	sort.Slice(out, func(i, j int) bool { return out[i].K < out[j].K })
+	return out
+}
+
+func (g *gen) subj() Desc { return subjectDesc(g.r.Intn(g.nSubj)) }
+
+// variant returns a descriptor that differs from a subject in exactly one field.
+func (g *gen) variant(s Desc) (Desc, string) {
+	switch g.r.Intn(5) {
+	case 0:
+		s.Size++
+		return s, "size+1"
+	case 1:
+		s.Size--
+		return s, "size-1"
+	case 2:
+		s.Mt = mtIndex
+		return s, "mediaType=index"
+	case 3:
+		s.Mt = mtArtifact
+		return s, "mediaType=artifact"
+	default:
+		s.Dig = 100 + s.Dig
+		return s, "digest"
+	}
+}
+
+func (g *gen) push(subject Desc, flavour string) Op {
+	size := g.envSize()
+	return Op{Kind: "push", Subject: &subject, Mt: g.envMt(), Blob: g.freshBlob(size), Bsize: size,
+		Layers: []Layer{}, Annos: g.annos(true), flavour: flavour}
+}
+
+func (g *gen) rawBase(mt string, subject *Desc, atype string) Op {
+	return Op{Kind: "raw", Subject: subject, Mt: mt, Atype: atype, Layers: []Layer{}, Annos: g.annos(true)}
+}
+
+func (g *gen) manifestMt() string {
+	if g.r.Intn(2) == 0 {
+		return mtImage
+	}
+	return mtArtifact
+}
+
+// storedLayer returns a layer naming fresh bytes plus the operation that stores them.
+func (g *gen) storedLayer() (Layer, Op) {
+	size := g.envSize()
+	id := g.freshBlob(size)
+	return Layer{Mt: g.envMt(), Blob: id, Size: size}, Op{Kind: "blob", Blob: id, Bsize: size, Layers: []Layer{}, Annos: []KV{}, flavour: "blob"}
+}
+
+// extra produces one foreign / hostile / legacy item (possibly preceded by a blob write).
+func (g *gen) extra() []Op {
+	s := g.subj()
+	mt := g.manifestMt()
+	choice := g.r.Intn(17)
+	switch choice {
+	case 0: // another artifact type on the exact subject
+		l, b := g.storedLayer()
+		o := g.rawBase(mt, &s, otherT)
+		o.Layers = []Layer{l}
+		if mt == mtImage {
+			o.TopType = []string{"", notationT, otherT}[g.r.Intn(3)]
+		}
+		o.flavour = "foreign:other-artifact-type"
+		return []Op{b, o}
+	case 1: // a well-formed signature manifest written by hand (legacy artifact manifest or image manifest)
+		l, b := g.storedLayer()
+		o := g.rawBase(mt, &s, notationT)
+		o.Layers = []Layer{l}
+		if mt == mtImage {
+			o.TopType = []string{"", notationT, otherT}[g.r.Intn(3)]
+		}
+		o.flavour = "signature:hand-written:" + map[string]string{mtImage: "image", mtArtifact: "legacy-artifact"}[mt]
+		return []Op{b, o}
+	case 2, 3: // subject differs in exactly one field
+		v, how := g.variant(s)
+		l, b := g.storedLayer()
+		o := g.rawBase(mt, &v, notationT)
+		o.Layers = []Layer{l}
+		o.flavour = "foreign:subject-differs:" + how
+		return []Op{b, o}
+	case 4: // no layer at all
+		o := g.rawBase(mt, &s, notationT)
+		o.flavour = "hostile:0-layers"
+		return []Op{o}
+	case 5: // two layers
+		l1, b1 := g.storedLayer()
+		l2, b2 := g.storedLayer()
+		o := g.rawBase(mt, &s, notationT)
+		o.Layers = []Layer{l1, l2}
+		o.flavour = "hostile:2-layers"
+		return []Op{b1, b2, o}
+	case 6: // a layer with a declared size over the cap (bytes present but small, or absent)
+		l, b := g.storedLayer()
+		l.Size = capB + 1 + int64(g.r.Intn(3))*1000000007
+		o := g.rawBase(mt, &s, notationT)
+		o.Layers = []Layer{l}
+		o.flavour = "hostile:layer-over-cap"
+		if g.r.Intn(2) == 0 {
+			return []Op{o}
+		}
+		return []Op{b, o}
+	case 7: // a layer with a declared size exactly at the cap whose bytes are not that long
+		if g.r.Intn(3) != 0 { // every fetch of it allocates 32 MiB: keep it rarer
+			return g.extra()
+		}
+		l, b := g.storedLayer()
+		l.Size = capB
+		o := g.rawBase(mt, &s, notationT)
+		o.Layers = []Layer{l}
+		o.flavour = "hostile:layer-at-cap-but-lying"
+		return []Op{b, o}
+	case 8: // dangling: the layer's bytes are not in the layout / the declared size is off by one
+		l, b := g.storedLayer()
+		o := g.rawBase(mt, &s, notationT)
+		o.flavour = "hostile:dangling-layer"
+		if g.r.Intn(2) == 0 {
+			l.Size++
+			o.flavour = "hostile:layer-size-lie"
+			o.Layers = []Layer{l}
+			return []Op{b, o}
+		}
+		o.Layers = []Layer{l}
+		return []Op{o}
+	case 9: // manifest over / at the manifest cap
+		if g.big >= 2 {
+			return g.extra()
+		}
+		g.big++
+		l, b := g.storedLayer()
+		at := []string{notationT, notationT, otherT}[g.r.Intn(3)]
+		subj := s
+		how := "exact-subject"
+		if g.r.Intn(3) == 0 {
+			subj, how = g.variant(s)
+		}
+		o := g.rawBase(mt, &subj, at)
+		o.Layers = []Layer{l}
+		o.padTo = capM + int64([]int{1, 1, 0, 977}[g.r.Intn(4)])
+		o.flavour = fmt.Sprintf("hostile:manifest-size=cap+%d:%s", o.padTo-capM, how)
+		return []Op{b, o}
+	case 10: // an index naming the subject
+		o := g.rawBase(mtIndex, &s, notationT)
+		o.flavour = "foreign:index-with-subject"
+		return []Op{o}
+	case 11: // notation type but no subject
+		l, b := g.storedLayer()
+		o := g.rawBase(mt, nil, notationT)
+		o.Layers = []Layer{l}
+		o.flavour = "foreign:no-subject"
+		return []Op{b, o}
+	case 12: // the same envelope pushed again (same or another subject): refused by the store
+		var prior []Op
+		for _, p := range g.ops {
+			if p.Kind == "push" {
+				prior = append(prior, p)
+			}
+		}
+		if len(prior) == 0 {
+			return g.extra()
+		}
+		p := prior[g.r.Intn(len(prior))]
+		o := Op{Kind: "push", Subject: &s, Mt: p.Mt, Blob: p.Blob, Bsize: p.Bsize, Layers: []Layer{}, Annos: g.annos(true), flavour: "push:same-envelope-again"}
+		return []Op{o}
+	case 13: // a signature pushed for a descriptor that differs from the subject in one field
+		v, how := g.variant(s)
+		return []Op{g.push(v, "push:subject-variant:"+how)}
+	case 14: // top-level artifactType says notation, config media type does not
+		l, b := g.storedLayer()
+		o := g.rawBase(mtImage, &s, otherT)
+		o.TopType = notationT
+		o.Layers = []Layer{l}
+		o.flavour = "foreign:top-level-artifactType-only"
+		return []Op{b, o}
+	case 15: // a foreign manifest that points at the envelope of a real signature
+		var prior []Op
+		for _, p := range g.ops {
+			if p.Kind == "push" {
+				prior = append(prior, p)
+			}
+		}
+		if len(prior) == 0 {
+			return g.extra()
+		}
+		p := prior[g.r.Intn(len(prior))]
+		other := subjectDesc(g.r.Intn(g.nSubj))
+		o := g.rawBase(mt, &other, []string{notationT, otherT}[g.r.Intn(2)])
+		o.Layers = []Layer{{Mt: p.Mt, Blob: p.Blob, Size: p.Bsize}}
+		o.flavour = "raw:reuses-envelope-of-a-signature"
+		return []Op{o}
+	default: // very large envelopes (thorough tier only): at the cap and one byte over
+		if !g.thorough || g.big >= 1 || g.r.Intn(6) != 0 {
+			return g.extra()
+		}
+		g.big += 2
+		size := int64(capB) + int64(g.r.Intn(2))
+		o := Op{Kind: "push", Subject: &s, Mt: g.envMt(), Blob: g.freshBlob(size), Bsize: size, Layers: []Layer{}, Annos: g.annos(true),
+			flavour: fmt.Sprintf("push:envelope-size=cap+%d", size-capB)}
+		return []Op{o}
+	}
+}
+
+func (g *gen) sequence(maxPush, maxExtra int) []Op {
+	nPush := 1 + g.r.Intn(maxPush)
+	nExtra := g.r.Intn(maxExtra + 1)
+	slots := make([]bool, 0, nPush+nExtra) // true: push
+	for i := 0; i < nPush; i++ {
+		slots = append(slots, true)
+	}
+	for i := 0; i < nExtra; i++ {
+		slots = append(slots, false)
+	}
+	g.r.Shuffle(len(slots), func(i, j int) { slots[i], slots[j] = slots[j], slots[i] })
+	for _, isPush := range slots {
+		if isPush {
+			g.ops = append(g.ops, g.push(g.subj(), "push"))
+		} else {
+			g.ops = append(g.ops, g.extra()...)
+		}
+	}
+	for i := range g.ops {
+		g.ops[i].Id = i
+	}
+	return g.ops
+}
+
+// ---- one case ------------------------------------------------------------------------------
+
+func runCase(c *common.Ctx, n int, in *Input, nSubj int, sizes map[int]int64, probeRand *rand.Rand) (Obs, error) {
+	dir := filepath.Join(c.WorkDir, fmt.Sprintf("layout-%d", n))
+	defer os.RemoveAll(dir)
+	w, err := newWorld(dir, in, nSubj)
+	if err != nil {
+		return Obs{}, err
+	}
+	w.blobSize = sizes
+	obs := Obs{Steps: []StepObs{}, Probes: []FetchObs{}, Reopened: []ListObs{}}
+	for k := range in.Ops {
+		o := &in.Ops[k]
+		ok, err := w.exec(o)
+		if err != nil {
+			return obs, fmt.Errorf("op %d (%s): %w", k, o.flavour, err)
+		}
+		so := StepObs{Ok: ok, Lists: []ListObs{}}
+		for _, q := range in.Queries {
+			so.Lists = append(so.Lists, w.listObs(w.repo, w.tgt, q))
+		}
+		obs.Steps = append(obs.Steps, so)
+	}
+	// probes: FetchSignatureBlob with hand-made descriptors
+	in.Probes = []Desc{}
+	for k := range in.Ops {
+		o := &in.Ops[k]
+		if _, stored := w.manDigest[o.Id]; !stored {
+			continue
+		}
+		mt := o.Mt
+		if o.Kind == "push" {
+			mt = mtImage
+		}
+		truth := Desc{Mt: mt, Dig: o.Id, Size: o.Msize}
+		in.Probes = append(in.Probes, truth)
+		switch probeRand.Intn(8) {
+		case 0:
+			v := truth
+			v.Size = capM + 1
+			in.Probes = append(in.Probes, v)
+		case 1:
+			v := truth
+			v.Mt = map[string]string{mtImage: mtArtifact, mtArtifact: mtImage, mtIndex: mtImage}[mt]
+			in.Probes = append(in.Probes, v)
+		case 2:
+			v := truth
+			v.Mt = []string{mtIndex, "application/vnd.docker.distribution.manifest.v2+json", ""}[probeRand.Intn(3)]
+			in.Probes = append(in.Probes, v)
+		case 3:
+			v := truth
+			v.Size++
+			in.Probes = append(in.Probes, v)
+		case 4:
+			v := truth
+			v.Size = capM
+			in.Probes = append(in.Probes, v)
+		}
+	}
+	if probeRand.Intn(3) == 0 {
+		in.Probes = append(in.Probes, Desc{Mt: mtImage, Dig: 9999, Size: 500})
+	}
+	for _, p := range in.Probes {
+		dg, ok := w.manDigest[p.Dig]
+		if !ok {
+			dg = digest.FromString(fmt.Sprint("no-such-manifest-", p.Dig))
+		}
+		obs.Probes = append(obs.Probes, w.fetchObs(w.repo, w.tgt, ocispec.Descriptor{MediaType: p.Mt, Digest: dg, Size: p.Size}))
+	}
+	// the layout re-opened from disk
+	obs.ReopenSame = true
+	store2, err := oci.New(dir)
+	repo3, err3 := registry.NewOCIRepository(dir, registry.RepositoryOptions{})
+	in.ReopenOk = err == nil
+	if (err == nil) != (err3 == nil) {
+		obs.ReopenSame = false
+	}
+	if err != nil || err3 != nil {
+		return obs, nil
+	}
+	tgt2 := &logTarget{GraphTarget: store2}
+	repo2 := registry.NewRepository(tgt2)
+	for _, q := range in.Queries {
+		lo := w.listObs(repo2, tgt2, q)
+		obs.Reopened = append(obs.Reopened, lo)
+		lo3 := w.listObs(repo3, nil, q)
+		if lo3.Ok != lo.Ok || len(lo3.Sigs) != len(lo.Sigs) {
+			obs.ReopenSame = false
+			continue
+		}
+		for k := range lo.Sigs {
+			a, b := lo.Sigs[k], lo3.Sigs[k]
+			if a.Id != b.Id || fmt.Sprint(a.Annos) != fmt.Sprint(b.Annos) || a.Fetch.Ok != b.Fetch.Ok || a.Fetch.Blob != b.Fetch.Blob || a.Fetch.Mt != b.Fetch.Mt {
+				obs.ReopenSame = false
+			}
+		}
+	}
+	return obs, nil
+}
+
+func count(c *common.Ctx, in *Input, obs *Obs) {
+	c.Count("mode=" + in.Mode)
+	c.Count(fmt.Sprintf("reopened=%v", in.ReopenOk))
+	c.Count(fmt.Sprintf("ops=%02d", len(in.Ops)))
+	pushes := 0
+	for _, o := range in.Ops {
+		c.Count("op:" + o.flavour)
+		if o.Kind == "push" {
+			pushes++
+		}
+	}
+	c.Count(fmt.Sprintf("pushes=%02d", pushes))
+	c.Count(fmt.Sprintf("queries=%d", len(in.Queries)))
+	for _, s := range obs.Steps {
+		for _, l := range s.Lists {
+			if !l.Ok {
+				c.Count("list=refused")
+				continue
+			}
+			c.Count("list=ok")
+			for _, sg := range l.Sigs {
+				if sg.Fetch.Ok {
+					c.Count("fetch=ok")
+				} else {
+					c.Count("fetch=refused")
+				}
+			}
+		}
+	}
+	for _, p := range obs.Probes {
+		if p.Ok {
+			c.Count("probe=ok")
+		} else if !p.ManifestRead {
+			c.Count("probe=refused-before-read")
+		} else {
+			c.Count("probe=refused")
+		}
+	}
+}
+
 // Run generates the cases of C19.
-func Run(c *common.Ctx) error { return errors.New("C19: harness not built yet") }
+func Run(c *common.Ctx) error {
+	nSeq, maxPush, maxExtra := 260, 8, 7
+	if c.Thorough() {
+		nSeq, maxPush, maxExtra = 2000, 12, 10
+	}
+	for n := 0; n < nSeq; n++ {
+		g := &gen{r: c.Rand, thorough: c.Thorough(), nSubj: 1 + c.Rand.Intn(3), sizes: map[int]int64{}}
+		if n%10 == 0 {
+			g.nSubj = 3
+		}
+		mp, me := maxPush, maxExtra
+		if n%7 == 0 { // the quantifier's upper end in both tiers
+			mp = 12
+		}
+		mode := "exact"
+		if c.Rand.Intn(5) < 2 {
+			mode = "digestOnly"
+		}
+		var ops []Op
+		if n < len(fixedScenarios) {
+			g.nSubj = 3
+			ops = fixedScenarios[n](g)
+			for i := range ops {
+				ops[i].Id = i
+			}
+			mode = []string{"exact", "digestOnly"}[n%2]
+		} else {
+			ops = g.sequence(mp, me)
+		}
+		in := &Input{Mode: mode, Ops: ops, Queries: []Desc{}, Probes: []Desc{}}
+		for k := 0; k < g.nSubj; k++ {
+			in.Queries = append(in.Queries, subjectDesc(k))
+		}
+		// sometimes also list a descriptor that differs from a subject in one field
+		if c.Rand.Intn(3) == 0 {
+			v, _ := g.variant(g.subj())
+			in.Queries = append(in.Queries, v)
+		}
+		// and every variant a signature was pushed for
+		for _, o := range ops {
+			if o.Kind == "push" && strings.HasPrefix(o.flavour, "push:subject-variant") && c.Rand.Intn(2) == 0 {
+				dup := false
+				for _, q := range in.Queries {
+					if q == *o.Subject {
+						dup = true
+					}
+				}
+				if !dup && len(in.Queries) < 5 {
+					in.Queries = append(in.Queries, *o.Subject)
+				}
+			}
+		}
+		obs, err := runCase(c, n, in, g.nSubj, g.sizes, c.Rand)
+		if err != nil {
+			return fmt.Errorf("sequence %d: %w", n, err)
+		}
+		c.Emit(in, obs)
+		count(c, in, &obs)
+	}
+	c.Note("%d operation sequences on real OCI layouts (oras oci.Store behind registry.NewRepository): up to %d PushSignature calls over 1..3 subject manifests "+
+		"(jose/cose envelopes of 24 B..80 kB, distinct bytes; in the thorough tier also envelopes of exactly the blob cap and one byte more), interleaved with up to %d foreign / hostile / legacy items "+
+		"written directly with oras (see the op:* histogram); after every operation every query descriptor is listed and every listed signature fetched; "+
+		"at the end hand-made descriptors are fetched and the layout is re-opened from disk (oci.New and registry.NewOCIRepository). "+
+		"mode=digestOnly wraps the store in a GraphTarget whose Predecessors is keyed by digest only.", nSeq, 12, maxExtra)
+	return nil
+}
+
+// fixedScenarios make sure every run contains each hostile shape at least once.
+var fixedScenarios = []func(g *gen) []Op{
+	func(g *gen) []Op { // two subjects, one signature each, plus one-field variants of subject 0
+		s0, s1 := subjectDesc(0), subjectDesc(1)
+		ops := []Op{g.push(s0, "push"), g.push(s1, "push")}
+		for _, v := range []Desc{{s0.Mt, s0.Dig, s0.Size + 1}, {mtIndex, s0.Dig, s0.Size}, {s0.Mt, 100, s0.Size}} {
+			v := v
+			l, b := g.storedLayer()
+			o := g.rawBase(mtImage, &v, notationT)
+			o.Layers = []Layer{l}
+			o.flavour = "foreign:subject-differs:fixed"
+			ops = append(ops, b, o)
+		}
+		return append(ops, g.push(s0, "push"))
+	},
+	func(g *gen) []Op { // same as above for legacy artifact manifests
+		s0 := subjectDesc(0)
+		ops := []Op{g.push(s0, "push")}
+		for _, v := range []Desc{{s0.Mt, s0.Dig, s0.Size + 1}, {mtArtifact, s0.Dig, s0.Size}, {s0.Mt, s0.Dig, s0.Size - 1}} {
+			v := v
+			l, b := g.storedLayer()
+			o := g.rawBase(mtArtifact, &v, notationT)
+			o.Layers = []Layer{l}
+			o.flavour = "foreign:subject-differs:fixed"
+			ops = append(ops, b, o)
+		}
+		l, b := g.storedLayer()
+		o := g.rawBase(mtArtifact, &s0, notationT)
+		o.Layers = []Layer{l}
+		o.flavour = "signature:hand-written:legacy-artifact"
+		return append(ops, b, o, g.push(subjectDesc(2), "push"))
+	},
+	func(g *gen) []Op { // 0 layers, 2 layers, layer over the cap, for both manifest formats
+		s := subjectDesc(1)
+		ops := []Op{g.push(s, "push")}
+		for _, mt := range []string{mtImage, mtArtifact} {
+			o0 := g.rawBase(mt, &s, notationT)
+			o0.flavour = "hostile:0-layers"
+			l1, b1 := g.storedLayer()
+			l2, b2 := g.storedLayer()
+			o2 := g.rawBase(mt, &s, notationT)
+			o2.Layers = []Layer{l1, l2}
+			o2.flavour = "hostile:2-layers"
+			l3, b3 := g.storedLayer()
+			l3.Size = capB + 1
+			o3 := g.rawBase(mt, &s, notationT)
+			o3.Layers = []Layer{l3}
+			o3.flavour = "hostile:layer-over-cap"
+			ops = append(ops, o0, b1, b2, o2, b3, o3)
+		}
+		return append(ops, g.push(s, "push"))
+	},
+	func(g *gen) []Op { // a manifest one byte over the cap for subject 0 only; subject 1 must stay listable
+		s0, s1 := subjectDesc(0), subjectDesc(1)
+		l, b := g.storedLayer()
+		o := g.rawBase(mtImage, &s0, otherT)
+		o.Layers = []Layer{l}
+		o.padTo = capM + 1
+		o.flavour = "hostile:manifest-size=cap+1:exact-subject"
+		return []Op{g.push(s0, "push"), g.push(s1, "push"), b, o, g.push(s1, "push")}
+	},
+	func(g *gen) []Op { // a manifest exactly at the cap is accepted; one byte over whose subject only shares the digest
+		s0 := subjectDesc(0)
+		v := Desc{s0.Mt, s0.Dig, s0.Size + 1}
+		l, b := g.storedLayer()
+		o := g.rawBase(mtArtifact, &s0, notationT)
+		o.Layers = []Layer{l}
+		o.padTo = capM
+		o.flavour = "hostile:manifest-size=cap+0:exact-subject"
+		l2, b2 := g.storedLayer()
+		o2 := g.rawBase(mtImage, &v, notationT)
+		o2.Layers = []Layer{l2}
+		o2.padTo = capM + 1
+		o2.flavour = "hostile:manifest-size=cap+1:size+1"
+		return []Op{g.push(s0, "push"), b, o, b2, o2}
+	},
+	func(g *gen) []Op { // envelopes of exactly the blob cap (round-trips) and one byte more (stored, listed, fetch refused)
+		s0, s1 := subjectDesc(0), subjectDesc(1)
+		mk := func(s Desc, size int64) Op {
+			return Op{Kind: "push", Subject: &s, Mt: g.envMt(), Blob: g.freshBlob(size), Bsize: size, Layers: []Layer{}, Annos: g.annos(true),
+				flavour: fmt.Sprintf("push:envelope-size=cap+%d", size-capB)}
+		}
+		return []Op{mk(s0, capB), mk(s1, capB+1)}
+	},
+	func(g *gen) []Op { // the same envelope twice; top-level artifactType only
+		s0, s1 := subjectDesc(0), subjectDesc(1)
+		p := g.push(s0, "push")
+		again := p
+		again.Subject = &s1
+		again.flavour = "push:same-envelope-again"
+		again2 := p
+		again2.flavour = "push:same-envelope-again"
+		l, b := g.storedLayer()
+		o := g.rawBase(mtImage, &s0, otherT)
+		o.TopType = notationT
+		o.Layers = []Layer{l}
+		o.flavour = "foreign:top-level-artifactType-only"
+		return []Op{p, again, again2, b, o, g.push(s1, "push")}
+	},
+}
